@@ -41,6 +41,10 @@ type Ctx struct {
 
 	eff     *effEngine
 	rng     *rangeEngine
+	// solarTableOK: R04.8 followed NewSolar over its decision table without a deviation; solarTableRun: it has run
+	solarTableOK, solarTableRun bool
+	// solarTableMonthsOK: on none of those walks was GetDaysOfMonth handed a month outside 1..12
+	solarTableMonthsOK bool
 	// starTableOK: the star accessors R16.5 followed over their whole input domain without a deviation (every
 	// value it states is an index 0..8); nil until R16.5 has run on this tree
 	starTableOK map[*ssa.Function]bool
